@@ -1,14 +1,18 @@
 package checks
 
 import (
+	gocontext "context"
 	"encoding/json"
 	"errors"
 	"fmt"
 	"io"
 	"math/rand"
+	"net"
 	"net/http"
 	"net/url"
+	"os"
 	"reflect"
+	"syscall"
 
 	"github.com/flamego/flamego"
 	"github.com/flamego/flamego/verifharness/core"
@@ -20,7 +24,7 @@ type retCase struct {
 	Int     int    `json:"int,omitempty"`
 	Str     core.B `json:"str,omitempty"`
 	Nil     bool   `json:"nil,omitempty"`                           // nil slice / nil pointer / nil interface instead of Str
-	Err     string `json:"err,omitempty"`                           // "" nil | new | custom | wrapped
+	Err     string `json:"err,omitempty"`                           // "" nil | new | custom | wrapped | sentinel:<i> | wrapped-sentinel:<i> (well-known error values of the standard library: what is written is Error(), whatever the error is)
 	ErrMsg  core.B `json:"err_msg,omitempty"`                       //
 	Pos     int    `json:"pos"`                                     // number of silent handlers before it
 	Reflect bool   `json:"reflective"`                              // add an injected parameter so that the built-in fast path cannot apply
@@ -29,6 +33,7 @@ type retCase struct {
 	FailW   bool   `json:"underlying_write_fails,omitempty"`        // the client is gone: every Write on the underlying writer fails. Nothing of this request may reach a later one
 	PreRet  bool   `json:"silent_handlers_return_values,omitempty"` // the preceding silent handlers return "" / nil error / nil []byte
 	Method  string `json:"method,omitempty"`
+	Cancel  bool   `json:"request_context_cancelled_by_the_returning_handler,omitempty"` // the returning handler cancels the request context before it returns: what it returns is still the response (the chain stops afterwards either way, C03)
 }
 
 func init() {
@@ -81,7 +86,32 @@ func (c *retCase) errValue() reflect.Value {
 	case "wrapped":
 		return reflect.ValueOf(fmt.Errorf("%w", errors.New(string(c.ErrMsg)))).Convert(tError)
 	}
+	if e := c.sentinel(); e != nil {
+		return reflect.ValueOf(&e).Elem()
+	}
 	return reflect.Zero(tError)
+}
+
+// c14Sentinels: error values with an identity that library code likes to special-case.
+var c14Sentinels = []error{gocontext.Canceled, gocontext.DeadlineExceeded, io.EOF, io.ErrUnexpectedEOF, http.ErrAbortHandler, os.ErrNotExist, io.ErrClosedPipe, net.ErrClosed, http.ErrHandlerTimeout, http.ErrBodyNotAllowed, http.ErrNoCookie, os.ErrDeadlineExceeded, syscall.EPIPE, io.ErrShortWrite}
+
+func (c *retCase) sentinel() error {
+	var i int
+	if n, _ := fmt.Sscanf(c.Err, "sentinel:%d", &i); n == 1 && i >= 0 && i < len(c14Sentinels) {
+		return c14Sentinels[i]
+	}
+	if n, _ := fmt.Sscanf(c.Err, "wrapped-sentinel:%d", &i); n == 1 && i >= 0 && i < len(c14Sentinels) {
+		return fmt.Errorf("while answering: %w", c14Sentinels[i])
+	}
+	return nil
+}
+
+// errText is the text of the returned error (the body the table prescribes).
+func (c *retCase) errText() string {
+	if e := c.sentinel(); e != nil {
+		return e.Error()
+	}
+	return string(c.ErrMsg)
 }
 
 func (c *retCase) strish(t reflect.Type) reflect.Value {
@@ -185,17 +215,17 @@ func retTable(c *retCase) (int, string, bool) {
 		if c.Err == "" {
 			return 0, "", false
 		}
-		return 500, string(c.ErrMsg), true
+		return 500, c.errText(), true
 	case "int,string", "int,bytes", "int,namedbytes":
 		return c.Int, body, true
 	case "int,error":
 		if c.Err == "" {
 			return c.Int, "", true
 		}
-		return c.Int, string(c.ErrMsg), true
+		return c.Int, c.errText(), true
 	case "string,error", "bytes,error":
 		if c.Err != "" {
-			return 500, string(c.ErrMsg), true
+			return 500, c.errText(), true
 		}
 		return one()
 	}
@@ -261,7 +291,12 @@ func genRetCase(rng *rand.Rand) *retCase {
 	if rng.Intn(2) == 0 {
 		c.Err = []string{"new", "custom", "wrapped"}[rng.Intn(3)]
 		c.ErrMsg = core.B([]string{"boom", "", "e: x", "\xff"}[rng.Intn(4)])
+		if rng.Intn(4) == 0 {
+			c.Err = fmt.Sprintf("%s:%d", []string{"sentinel", "wrapped-sentinel"}[rng.Intn(2)], rng.Intn(len(c14Sentinels)))
+			c.ErrMsg = ""
+		}
 	}
+	c.Cancel = rng.Intn(10) == 0
 	c.Method = []string{"GET", "GET", "POST", "HEAD", "HEAD"}[rng.Intn(5)]
 	c.FailW = rng.Intn(25) == 0
 	c.In = []string{"", "", "req", "rw,req", "ctx"}[rng.Intn(5)]
@@ -297,8 +332,13 @@ func judgeRet(w *core.W, c *retCase) {
 		in = []reflect.Type{tCtx}
 	}
 	ran := 0
+	reqCtx, cancelReq := gocontext.WithCancel(gocontext.Background())
+	defer cancelReq()
 	h := reflect.MakeFunc(reflect.FuncOf(in, outT, false), func([]reflect.Value) []reflect.Value {
 		ran++
+		if c.Cancel {
+			cancelReq()
+		}
 		return outV
 	}).Interface()
 
@@ -343,7 +383,7 @@ func judgeRet(w *core.W, c *retCase) {
 	var pan interface{}
 	func() {
 		defer func() { pan = recover() }()
-		f.ServeHTTP(spy, &http.Request{Method: meth, URL: &url.URL{Path: "/r"}, Header: http.Header{}})
+		f.ServeHTTP(spy, (&http.Request{Method: meth, URL: &url.URL{Path: "/r"}, Header: http.Header{}}).WithContext(reqCtx))
 	}()
 	fast := !c.Reflect && c.In == "" && c.Shape == "int,string"
 	path := "reflective"
@@ -373,6 +413,12 @@ func judgeRet(w *core.W, c *retCase) {
 	}
 	if c.PreRet {
 		w.Count("silent-handlers-returned-values")
+	}
+	if c.Cancel {
+		w.Count("request-cancelled-by-returning-handler")
+	}
+	if c.sentinel() != nil {
+		w.Count("standard-library-error-value-returned")
 	}
 	w.NonTrivial(core.Hash64(c.Shape, cls, path, c.Custom, fmt.Sprint(c.Pos, c.PreRet, c.Method), fmt.Sprint(c.Int), string(c.Str), c.Err, string(c.ErrMsg)), func() interface{} {
 		return map[string]interface{}{"case": c, "status": spy.status, "body": core.B(spy.body), "next_handler_ran": marker == 1}
@@ -406,7 +452,7 @@ func retVerdict(c *retCase, pan interface{}, ran, pre, status int, body string, 
 		if status != 0 || body != "" {
 			return fmt.Sprintf("the default table was applied (status %d body %q) although a custom ReturnHandler replaces it", status, body)
 		}
-		if marker != 1 {
+		if marker != 1 && !c.Cancel {
 			return "nothing was written, yet the next handler did not run"
 		}
 		return ""
@@ -422,8 +468,11 @@ func retVerdict(c *retCase, pan interface{}, ran, pre, status int, body string, 
 		if status != 0 || body != "" {
 			return fmt.Sprintf("nil/empty/zero results must write nothing; observed status %d body %q", status, body)
 		}
-		if marker != 1 {
+		if marker != 1 && !c.Cancel {
 			return "nothing was written, yet the next handler did not run"
+		}
+		if marker != 0 && c.Cancel {
+			return "the request context was cancelled, yet the next handler still ran (C03)"
 		}
 		return ""
 	}
@@ -485,7 +534,7 @@ func runC14(r *core.Run) {
 		}
 		r.GateCounter("class:"+s+"/non-empty", 50)
 	}
-	for _, k := range []string{"class:string/zero", "class:named/zero", "class:bytes/nil", "class:*string/nil", "class:*bytes/nil", "class:iface/nil", "class:error/error", "class:error/zero", "class:int,error/error", "class:string,error/error", "class:bytes,error/error", "class:int,string/zero", "class:int,bytes/nil", "path:fast", "path:reflective", "custom:app", "custom:request", "custom:request-late", "silent-handlers-returned-values", "method:HEAD", "method:GET"} {
+	for _, k := range []string{"class:string/zero", "class:named/zero", "class:bytes/nil", "class:*string/nil", "class:*bytes/nil", "class:iface/nil", "class:error/error", "class:error/zero", "class:int,error/error", "class:string,error/error", "class:bytes,error/error", "class:int,string/zero", "class:int,bytes/nil", "path:fast", "path:reflective", "custom:app", "custom:request", "custom:request-late", "silent-handlers-returned-values", "method:HEAD", "method:GET", "request-cancelled-by-returning-handler", "standard-library-error-value-returned"} {
 		r.GateCounter(k, 50)
 	}
 	r.Gate("distinct_nontrivial", r.NonTrivialCount(), 2000)
